@@ -55,7 +55,7 @@ UNITS = {
         widths=[16, 8],
         prelude='preludes/arith.rs',
         specs='contracts/arith.vspec',
-        lemmas=['lemmas/arith_lemmas.rs'],
+        lemmas=['lemmas/arith_lemmas.rs', 'lemmas/probe_lemmas.rs'],
         items=[
             I(RAW, None, 'h1'),
             I(RAW, r'^impl ProbeSeq$', 'move_next', impl='ProbeSeq'),
@@ -193,7 +193,7 @@ def generate(unit_name, width, outdir):
                          sha256=item['sha'], tokens=item['ntokens']))
     prelude = open(os.path.join(VERIF, u['prelude'])).read().replace('@WIDTH@', str(width))
     parts = ['// GENERATED by /verif/lib/vunits.py from /repo working tree -- do not edit\n',
-             'use vstd::prelude::*;\n#[allow(unused_imports)]\nuse core::mem;\nverus! {\n', prelude, '\n']
+             'use vstd::prelude::*;\n#[allow(unused_imports)]\nuse core::mem;\n#[allow(unused_imports)]\nuse vstd::arithmetic::power2::*;\n#[allow(unused_imports)]\nuse vstd::arithmetic::div_mod::*;\n#[allow(unused_imports)]\nuse vstd::arithmetic::mul::*;\n#[allow(unused_imports)]\nuse vstd::bits::*;\nverus! {\n', prelude, '\n']
     parts += [f + '\n\n' for f in free]
     for name, fns in impls.items():
         parts.append('impl %s {\n%s\n}\n\n' % (name, '\n\n'.join(fns)))
